@@ -230,6 +230,6 @@ SysFlagFixed ==
 OrdinaryCtxCannotTouchSystem ==
   \* (a step that rolls the transaction back restores the pre-transaction state, whoever made the earlier calls)
   [][(txn.open /\ ~txn.sys /\ last'.res = "ok" /\ ~(last'.op \in {"create", "update", "delete", "deleteTeam"} /\ last'.a.osys))
-       => \A i \in Ids : (Present(db, i) /\ db.ent[i].sys) => (db'.ent[i] = db.ent[i] /\ db'.ext[i] = db.ext[i])]_vars
+       => \A i \in Ids : (Present(db, i) /\ db.ent[i].sys /\ (SysScope = "parent" \/ HasExt(db, i))) => (db'.ent[i] = db.ent[i] /\ db'.ext[i] = db.ext[i])]_vars
 
 =============================================================================
